@@ -348,7 +348,9 @@ def run_c02_prefix(P, res, pl):
         res.cls('line ' + ('ok' if full.variant == 'Ok' else full.fields[0].variant), nontrivial=full.variant == 'Ok')
         if bad:
             res.violations.append({'what': bad, 'input': {'stream': hexs(model_bytes(ctx.model(), x)), 'check': 'prefix', 'greeting': greet}})
-        else:
+        elif not greet:
+            # (greeting prefixes are not cross-validated at connection level: both connect functions discard what arrives in the same
+            # read after the greeting line - stated in the assumptions - so a witness with bytes after the line end differs by design)
             res.xval_path('line ' + full.variant, lambda r: replay_for('C02', r), lambda: {'stream': hexs(model_bytes(ctx.model(), x)), 'check': 'prefix', 'greeting': greet})
         res.take_stats(ctx.stats); ctx.stats.__init__()
 
